@@ -21,7 +21,7 @@
 From Coq Require Import List Arith NArith Bool.
 Import ListNotations.
 Require Import Aiuti.Buffer Aiuti.BufferCore Aiuti.BufferFlag Aiuti.BufferJoin Aiuti.BufferQuiet
-               Aiuti.BufferOnce Aiuti.BufferProgress Aiuti.Case_Buffer Aiuti.Case_C03 Aiuti.BufferMon Aiuti.BufferMonSound Aiuti.BufferTrk Aiuti.BufferMon3.
+               Aiuti.BufferOnce Aiuti.BufferProgress Aiuti.Case_Buffer Aiuti.Case_C03 Aiuti.BufferMon Aiuti.BufferMonSound Aiuti.BufferTrk Aiuti.BufferMon3 Aiuti.BufferMon3B.
 
 (* The function only ever receives arguments that were submitted: every element
    of every set passed to the function in the macro step of event e was handed
@@ -180,12 +180,17 @@ Theorem tracker_agrees_on_offers :
 Proof. exact offered_args_final. Qed.
 Print Assumptions tracker_agrees_on_offers.
 
-(* Completeness of three of the four conjuncts of Case_C03.ok = ok_csets && ok_offered && ok_once && ok_walk:
-   on the model's own trace of EVERY event list the call-set part, the only-submitted part and the
-   exactly-once part accept.  (monitor_complete proper is NOT proved: the remaining conjunct ok_walk
-   additionally re-checks "failed set offered again" and "settled tail => everything delivered"; its
-   completeness needs two more simulation invariants — the failed set stays inside the round's input
-   set, and "no producer open in the tracker => the daemon is not parked on a producer" — see notes.) *)
+(* COMPLETENESS of the whole monitor.  For EVERY timeout and EVERY event list (all producer kinds, producer
+   failures, function outcomes, waits, shutdown, foreign halves) the trace monitor
+   Case_C03.ok = ok_csets && ok_offered && ok_once && ok_walk accepts the model's own trace — including the walk
+   part with "failed set offered again" and "settled tail => everything handed over is delivered".  So on any
+   case where the implementation's trace equals the model's trace the monitor cannot raise an alarm. *)
+Theorem monitor_complete :
+  forall (T : N) (evs : list event), Case_C03.ok (Case T evs (trace T evs)) = true.
+Proof. exact c03_monitor_complete. Qed.
+Print Assumptions monitor_complete.
+
+(* (the three tracker-free / tracker-based sub-monitors separately) *)
 Theorem monitor_complete_partial :
   forall (T : N) (evs : list event),
     ok_csets (Case T evs (trace T evs)) = true /\
